@@ -358,6 +358,7 @@ def generate():
 HEADER = '''(* GENERATED by translate/pipeline.py from /repo/homonim - do not edit.
    The path of one block through fit / apply in the current source: re-projections, which mask the parameters get, what is written. *)
 From Coq Require Import QArith Bool.
+From HVgen Require NormalFormCases.     (* the source was read through the normal form that file ties to its proved model *)
 From HV Require Import Kernel.Flow.
 Open Scope Q_scope.
 
